@@ -460,3 +460,4 @@ mod tests {
         );
     }
 }
+#[cfg(rjrssync_verif)] pub(crate) mod verif_hooks { include!(concat!(env!("RJRSSYNC_VERIF_HARNESS"), "/hooks_boss_progress.rs")); }
